@@ -89,3 +89,46 @@ def landmarks(prog):
                     if L.stripped is None or stn.line < L.stripped_line:
                         L.stripped, L.stripped_line = v, stn.line
     return L
+
+
+def line_end_rule(prog, ctx, rule, L=None):
+    """The text of a physical line is kept up to its end: the line buffer (and its raw copy) is only ever cut where the line
+    ends.  A cut at the first occurrence of some other character - `buf[strcspn(buf, "\\r\\n")] = 0`, `*strchr(buf, c) = 0` -
+    drops the rest of the line whenever that character occurs inside a comment or a value."""
+    L = L or landmarks(prog)
+    f = L.fn
+    raw = set([L.linebuf])
+    # copies of the whole line (org_buf = strdup(buf))
+    for lhs, rhs, st in f.assignments():
+        if rhs is not None and render(rhs.strip()) in ("strdup(%s)" % L.linebuf,):
+            raw.add(lhs["name"] if isinstance(lhs, dict) else render(lhs))
+    n = 0
+    for lhs, rhs, st, kind in query.stores(f):
+        if kind != "=" or rhs is None or rhs.const_value() != 0:
+            continue
+        l0 = lhs.strip()
+        pos = None
+        if l0.k == "ArraySubscriptExpr" and render(l0.children[0]) in raw:
+            pos = l0.children[1].strip()
+        elif l0.k == "UnaryOperator" and l0.j.get("op") == "*":
+            pos = l0.children[0].strip()
+        if pos is None:
+            continue
+        for c in pos.walk():
+            if c.k != "CallExpr" or c.j.get("callee") not in ("strcspn", "strpbrk", "strchr", "memchr", "strchrnul"):
+                continue
+            a = c.call_args()
+            if not a or render(a[0]) not in raw:
+                continue
+            n += 1
+            chars = a[1].string_value() if c.j["callee"] in ("strcspn", "strpbrk") else None
+            if chars is None and len(a) > 1 and a[1].const_value() is not None:
+                chars = chr(a[1].const_value())
+            if chars == "\n":
+                ctx.ok(rule, "the line is cut only at its end", st.where, "%s: a line read by getline() holds at most one newline, at its end" % render(c))
+            else:
+                ctx.fail(rule, "the line is cut only at its end", st.where,
+                         "`%s` ends the line at the first %s anywhere in it: the rest of a comment or value that contains such a character is dropped"
+                         % (render(st)[:70], "of %r" % chars if chars is not None else "match of %s" % render(a[1])), key="line-cut:%s" % render(a[0]))
+    if not n:
+        ctx.ok(rule, "the line is cut only at its end", f.where, "no cut of the line buffer at a searched-for character")
